@@ -70,7 +70,11 @@ func (r *runner) judge(kind, key, typ, order string, e tls.TLSExtension, fr firs
 		c.Fail(typ+"/panic", "Len() panicked ("+order+")", in, "panic", "a length")
 		return false
 	}
-	if ok {
+	if ok && r.firstTerm != "" {
+		// edited object: the model gets the value as first encoded and the fields as they are now
+		r.emit(kind, fmt.Sprintf("CReadObj %s %s %d (Some %d) %s", r.firstTerm, term, fr.n, L, robs(fr.pan, fr.k, fr.err, fr.b)), key,
+			L > 4, map[string]any{"order": order, "type": typ, "buf": fr.n, "Len": L, "k": fr.k, "err": errText(fr.err)})
+	} else if ok {
 		r.emit(kind, fmt.Sprintf("CRead %s %d (Some %d) %s", term, fr.n, L, robs(fr.pan, fr.k, fr.err, fr.b)), key,
 			L > 4, map[string]any{"order": order, "type": typ, "buf": fr.n, "Len": L, "k": fr.k, "err": errText(fr.err)})
 	}
@@ -78,9 +82,14 @@ func (r *runner) judge(kind, key, typ, order string, e tls.TLSExtension, fr firs
 		return false
 	}
 	c.Count("check:order")
+	scenario := ""
+	if r.firstTerm != "" {
+		scenario = "after-edit/" // edits.go: keyed apart from the single-pass rules
+		in["first_encoded_as"] = clip(r.firstTerm, 300)
+	}
 	fail := func(rule, what string, got, want any) {
-		c.Count("fail:" + rule)
-		c.Fail(typ+"/"+rule, what+" ["+order+"]", in, got, want)
+		c.Count("fail:" + scenario + rule)
+		c.Fail(typ+"/"+scenario+rule, what+" ["+order+"]", in, got, want)
 	}
 	got := map[string]any{"Len_after": L, "read": fr.k, "err": errText(fr.err), "bytes": clip(vh.Hex(fr.b[:min(max(fr.k, 0), fr.n)]), 200)}
 	if L2 != L {
